@@ -488,23 +488,27 @@ package common
 // ones, with repetition, until SYNC_COMMITTEE_SIZE are collected; the seed is get_seed(base_epoch, DOMAIN_SYNC_COMMITTEE).
 // sc_count(k): accepted candidates among the first k. The contract speaks of runs in which the committee fills up within
 // 2^40 candidates (otherwise the candidate counter's range would have to be argued about).
-//@ defrec sc_count(maxeb int, reg RegI, rounds int, active VIdxsT, seed Root32, k int) int = ite(k <= 0, 0, sc_count(maxeb, reg, rounds, active, seed, k - 1) + ite(prop_accept(maxeb, reg, rounds, active, seed, k - 1), 1, 0))
-//@ lemma sc_count_mono [WIP, induct=q, manual]: forall q int, maxeb int, reg RegI, rounds int, active VIdxsT, seed Root32, p int :: {sc_count(maxeb, reg, rounds, active, seed, p), sc_count(maxeb, reg, rounds, active, seed, q)} p <= q ==> sc_count(maxeb, reg, rounds, active, seed, p) <= sc_count(maxeb, reg, rounds, active, seed, q)
-//@ lemma sc_count_bound [WIP, induct=q, manual]: forall q int, maxeb int, reg RegI, rounds int, active VIdxsT, seed Root32 :: {sc_count(maxeb, reg, rounds, active, seed, q)} 0 <= sc_count(maxeb, reg, rounds, active, seed, q) && sc_count(maxeb, reg, rounds, active, seed, q) <= max(q, 0)
+// STATUS: work in progress, tagged WIP and not part of any claimed check: the bound, the step hint and the lemmas
+// discharge, the count / hash / members obligations time out in every solver (see DESIGN.md, C07).
+//@ ufun sc_count(int, RegI, int, VIdxsT, Root32, int) int
+//@ axiom sc_count_def [manual]: forall maxeb int, reg RegI, rounds int, active VIdxsT, seed Root32, k int :: {sc_count(maxeb, reg, rounds, active, seed, k), ktrig(k)} sc_count(maxeb, reg, rounds, active, seed, k) == ite(k <= 0, 0, sc_count(maxeb, reg, rounds, active, seed, k - 1) + ite(prop_accept(maxeb, reg, rounds, active, seed, k - 1), 1, 0))
+//@ lemma sc_count_bound [WIP, induct=q, manual, use=sc_count_def]: forall q int, maxeb int, reg RegI, rounds int, active VIdxsT, seed Root32 :: {sc_count(maxeb, reg, rounds, active, seed, q)} ktrig(q) ==> 0 <= sc_count(maxeb, reg, rounds, active, seed, q) && sc_count(maxeb, reg, rounds, active, seed, q) <= max(q, 0)
+//@ lemma sc_count_mono [WIP, induct=q, manual, use=sc_count_def, use=sc_count_bound]: forall q int, maxeb int, reg RegI, rounds int, active VIdxsT, seed Root32, p int :: {sc_count(maxeb, reg, rounds, active, seed, p), sc_count(maxeb, reg, rounds, active, seed, q)} ktrig(q) && ktrig(p) && p <= q ==> sc_count(maxeb, reg, rounds, active, seed, p) <= sc_count(maxeb, reg, rounds, active, seed, q)
 //@ func ComputeSyncCommitteeIndices(spec, state, baseEpoch, active) (out, err)
 //@   property WIP
 //@   nooverflow
-//@   use sc_count_mono, sc_count_bound, prop_accept_def
+//@   use sc_count_def, sc_count_mono, sc_count_bound, prop_accept_def
 //@   requires spec != nil && state != nil && spec.SLOTS_PER_EPOCH != 0 && spec.MIN_SEED_LOOKAHEAD + 1 <= spec.EPOCHS_PER_HISTORICAL_VECTOR && baseEpoch + spec.EPOCHS_PER_HISTORICAL_VECTOR < 18446744073709551616
-//@   requires len(active) <= 1099511627776 && spec.SYNC_COMMITTEE_SIZE < 1048576
+//@   requires len(active) <= 1099511627776 && spec.SYNC_COMMITTEE_SIZE < 1048576 && st_slot(state) < 9223372036854775808
 //@   requires balances: spec.MAX_EFFECTIVE_BALANCE < 72057594037927936 && (forall v ValI :: {v_eb(v)} v_eb(v) < 72057594037927936)
 //@   requires fills: sc_count(spec.MAX_EFFECTIVE_BALANCE, st_vals(state), spec.SHUFFLE_ROUND_COUNT % 256, active, seed_of(spec, st_mixes(state), baseEpoch, DOMAIN_SYNC_COMMITTEE), 1099511627776) >= spec.SYNC_COMMITTEE_SIZE
 //@   ensures empty: len(active) == 0 ==> err != nil
 //@   ensures size: err == nil ==> len(out) == spec.SYNC_COMMITTEE_SIZE
 //@   ensures members: err == nil ==> (forall p :: {sc_count(spec.MAX_EFFECTIVE_BALANCE, st_vals(state), spec.SHUFFLE_ROUND_COUNT % 256, active, seed_of(spec, st_mixes(state), baseEpoch, DOMAIN_SYNC_COMMITTEE), p)} 0 <= p && prop_accept(spec.MAX_EFFECTIVE_BALANCE, st_vals(state), spec.SHUFFLE_ROUND_COUNT % 256, active, seed_of(spec, st_mixes(state), baseEpoch, DOMAIN_SYNC_COMMITTEE), p) && sc_count(spec.MAX_EFFECTIVE_BALANCE, st_vals(state), spec.SHUFFLE_ROUND_COUNT % 256, active, seed_of(spec, st_mixes(state), baseEpoch, DOMAIN_SYNC_COMMITTEE), p) < spec.SYNC_COMMITTEE_SIZE ==> out[sc_count(spec.MAX_EFFECTIVE_BALANCE, st_vals(state), spec.SHUFFLE_ROUND_COUNT % 256, active, seed_of(spec, st_mixes(state), baseEpoch, DOMAIN_SYNC_COMMITTEE), p)] == prop_cand(spec.SHUFFLE_ROUND_COUNT % 256, active, seed_of(spec, st_mixes(state), baseEpoch, DOMAIN_SYNC_COMMITTEE), p))
+//@   after =randomByte@1 step: ktrig(i + 1) && sc_count(spec.MAX_EFFECTIVE_BALANCE, vals, spec.SHUFFLE_ROUND_COUNT % 256, active, periodSeed, i + 1) == sc_count(spec.MAX_EFFECTIVE_BALANCE, vals, spec.SHUFFLE_ROUND_COUNT % 256, active, periodSeed, i) + ite(prop_accept(spec.MAX_EFFECTIVE_BALANCE, vals, spec.SHUFFLE_ROUND_COUNT % 256, active, periodSeed, i), 1, 0)
 //@   loop 1
 //@     invariant mixes == st_mixes(state) && vals == st_vals(state) && periodSeed == seed_of(spec, st_mixes(state), baseEpoch, DOMAIN_SYNC_COMMITTEE) && len(active) > 0
-//@     invariant 0 <= i && i < 1099511627776
+//@     invariant 0 <= i && i <= 1099511627776
 //@     invariant count: len(syncCommitteeIndices) == sc_count(spec.MAX_EFFECTIVE_BALANCE, vals, spec.SHUFFLE_ROUND_COUNT % 256, active, periodSeed, i) && len(syncCommitteeIndices) <= i
 //@     invariant forall b :: 0 <= b && b < 32 ==> buf[b] == periodSeed[b]
 //@     invariant hash: i % 32 != 0 ==> h == sha256(cat(periodSeed, le64(i / 32)))
